@@ -3,6 +3,7 @@ import KoordVerif.Model.C07
 import KoordVerif.Model.C07Hist
 import KoordVerif.Model.C07RO
 import KoordVerif.Model.C07Shape
+import KoordVerif.Model.C07Glue
 /-
 Driver for C07.  One case = one history on one node; three device types (0 gpu, 1 rdma, 2 fpga),
 three resource dimensions per type.  A resource list is 3 tokens, `_` = key absent.
@@ -45,6 +46,19 @@ three resource dimensions per type.  A resource list is 3 tokens, `_` = key abse
        rorst:         ra|rb|rc <0 matched | 1 unmatched> <rsv> <k> (…)*   allocatable / allocated / remained, in order;
                       rm <0 mergedMatchedAllocatable | 1 mergedMatchedAllocated | 2 mergedUnmatchedUsed> <k> (…)*
        rofil:         filter <0|1>
+  EXTENSION 3 (Model/C07Glue.lean):
+  evtx <kind 0 add | 1 update (resync) | 2 delete> <shape> <pod> <terminated> <nann>      a pod event whose object went through the
+     informer's transformer (TransformPodFactory) first;  <nann> ::= <nt> (<type> <k> (<minor> l l l c c c)*k)*  the annotation
+     BY NAME: per dimension the amount under the deprecated (l) and under the current (c) resource name.
+     output: tx <nann after the transformer>, then the ledger.
+  dvtx <kind> <shapeA> <shapeB> <n> (<type> <minor> l l l c c c)*      as dvref, the Device object's resource lists BY NAME
+     (deprecated / current); the event passes TransformDevice first (transformInv)
+  sel <i>                                            switch to node i (every op works on the current node; each node has its
+     own ledger and history predicates); no output
+  cyb <hasAnnotation> <hint> <k> (<minor> q q q)*k   PreFilter of a new cycle (device type 0): designation kept only with a hint
+  cyf <nm> m* <desired> q q q                        Plugin.Filter on the current node: `filter <0|1>`
+  cyr <nm> m* <desired> q q q <ok> <k> m*            Plugin.Reserve on the current node, with the implementation's choice: checked
+     against the view cycView of the current node's ledger (as alloc mode 1); the commit follows as an `add` line
 After ref/add/rem/upd/del: the ledger, value-based (missing = 0), only devices with a non-zero entry:
   d <type> <minor> <total>*3 <free>*3 <used>*3        p <type> <pod> <k> (<minor> v v v)*
 then  x <wf> <exact> <sched>   the history predicates so far (histWFB / histExact / histSched of Model/C07Hist.lean, all types)
@@ -151,6 +165,9 @@ structure DState where
   exact : Bool
   sched : Bool
   cyc   : Cycle := Cycle.empty   -- the running scheduling cycle of the events harness (device type 0)
+  pst   : PState := { designated := none, result := none }   -- extension 3: allocation result / designation of the running cycle
+  parked : List (Nat × Node × Bool × Bool × Bool) := []      -- extension 3: the other nodes (index, ledger, wf, exact, sched)
+  cur   : Nat := 0
 
 /-- apply ledger ops to one device type, evaluating `opWFB` / `opExact` on the way -/
 def applyOps (d : DState) (t : Nat) (ops : List Op) : DState :=
@@ -158,7 +175,7 @@ def applyOps (d : DState) (t : Nat) (ops : List Op) : DState :=
   ops.foldl (fun d op =>
     let s := nodeGet d.node t
     { node := nodeSet d.node t (step s op), wf := d.wf && opWFB op, exact := d.exact && opExact s op,
-      sched := d.sched && schedOK s op, cyc := d.cyc }) d
+      sched := d.sched && schedOK s op, cyc := d.cyc, pst := d.pst, parked := d.parked, cur := d.cur }) d
 
 def applyAllocs (d : DState) (p : Nat) (add : Bool) (groups : List (Nat × List (Nat × RL))) : DState :=
   groups.foldl (fun d g => applyOps d g.1 [if add then Op.add p g.2 else Op.remove p g.2]) d
@@ -240,6 +257,31 @@ def podObjOf (groups : List (Nat × List (Nat × RL))) (t : Nat) (assigned termi
 /-- shaped events on every device type -/
 def applyShaped (d : DState) (f : Nat → List Op) : DState :=
   (List.range ntypes).foldl (fun d t => applyOps d t (f t)) d
+
+/-- switch to node `i`: park the current node with its history predicates, load node `i` (a node never seen: empty) -/
+def selNode (d : DState) (i : Nat) : DState :=
+  if i = d.cur then d else
+  let parked := (d.parked.filter (fun e => e.1 != d.cur)) ++ [(d.cur, d.node, d.wf, d.exact, d.sched)]
+  match parked.find? (fun e => e.1 == i) with
+  | some (_, n, wf, ex, sc) => { d with node := n, wf := wf, exact := ex, sched := sc, parked := parked.filter (fun e => e.1 != i), cur := i }
+  | none => { d with node := List.replicate ntypes TState.empty, wf := true, exact := true, sched := true, parked := parked, cur := i }
+
+def pNEntry : P NEntry := do
+  let m ← pNat
+  let ls ← pRep dims pQ
+  let cs ← pRep dims pQ
+  pure (m, ls.zip cs)
+
+def pNAnn : P NAnn := do
+  let nt ← pNat
+  pRep nt (do let t ← pNat; let k ← pNat; let es ← pRep k pNEntry; pure (t, es))
+
+def showQ (q : Q) : String := match q with | none => "_" | some v => toString v
+
+def showNAnn (a : NAnn) : String :=
+  s!"{a.length}" ++ String.join (a.map (fun g =>
+    s!" {g.1} {g.2.length}" ++ String.join (g.2.map (fun e =>
+      s!" {e.1} " ++ " ".intercalate ((legRL e.2).map showQ) ++ " " ++ " ".intercalate ((curRL e.2).map showQ)))))
 
 def runLine (d : DState) (line : String) : DState × List String :=
   let n := d.node
@@ -362,6 +404,48 @@ def runLine (d : DState) (line : String) : DState × List String :=
         let d' := applyShaped d (fun t => sevOps (.podDelete sh p (podObjOf g t a false)))
         (d', dump d'.node ++ [flagLine d'])
       | none => (d, ["bad-op"])
+    else if kind = "evtx" then
+      match (do let k ← pNat; let sh ← pShape; let p ← pNat; let tm ← pBool; let a ← pNAnn; pEnd; pure (k, sh, p, tm, a)).run' rest with
+      | some (k, sh, p, tm, a) =>
+        if k > 2 then (d, ["bad-op"]) else
+        let d' := applyShaped d (fun t =>
+          if k = 0 then sevOps (.podAdd sh p (txPodObj a t true tm))
+          else if k = 1 then sevOps (.podUpdate sh sh p (txPodObj a t true false) (txPodObj a t true tm))
+          else sevOps (.podDelete sh p (txPodObj a t true false)))
+        (d', [s!"tx {showNAnn (transformPodAnn a)}"] ++ dump d'.node ++ [flagLine d'])
+      | none => (d, ["bad-op"])
+    else if kind = "sel" then
+      match (do let i ← pNat; pEnd; pure i).run' rest with
+      | some i => (selNode d i, [])
+      | none => (d, ["bad-op"])
+    else if kind = "cyb" then
+      match (do let ha ← pBool; let hint ← pBool; let es ← pEntries; pEnd; pure (ha, hint, es)).run' rest with
+      | some (ha, hint, es) => ({ d with pst := cycPreFilter (if ha then some (mkMap es) else none) hint }, [])
+      | none => (d, ["bad-op"])
+    else if kind = "cyf" then
+      match (do let ms ← pNats; let desired ← pNat; let req ← pRL; pEnd; pure (ms, desired, req)).run' rest with
+      | some (ms, desired, req) =>
+        let a : AllocReq := { req := req, desired := desired, npcie := 0, required := [], preferred := [] }
+        let (c', v) := cycFilter (nodeGet n 0) ms a d.pst
+        ({ d with pst := c' }, [s!"filter {if v then 1 else 0}"])
+      | none => (d, ["bad-op"])
+    else if kind = "cyr" then
+      match (do
+          let ms ← pNats; let desired ← pNat; let req ← pRL
+          let ok ← pNat; let res ← pNats; pEnd
+          pure (ms, desired, req, (if ok = 0 then none else some res : Option (List Nat)))).run' rest with
+      | some (ms, desired, req, res) =>
+        let a : AllocReq := { req := req, desired := desired, npcie := 0, required := [], preferred := [] }
+        -- Reserve: with no result in the cycle state (`filter_clears_trial_result`) the allocator runs on the view of the
+        -- current node's ledger; a result that survived is committed as it is
+        match d.pst.result with
+        | none =>
+          let w := cycView (nodeGet n 0) ms d.pst
+          let code := checkResult w a res
+          ({ d with pst := { d.pst with result := res } },
+            if code = 0 then [showAlloc false res] ++ covLine w a res else [s!"alloc inconsistent {code}"])
+        | some stale => (d, [showAlloc false (some stale)])
+      | none => (d, ["bad-op"])
     else if kind = "rvadd" || kind = "rvdel" then
       match (do
           let sh ← pShape; let p ← pNat; let v ← pBool; let ac ← pBool; let a ← pBool; let tm ← pBool
@@ -412,6 +496,19 @@ def runLine (d : DState) (line : String) : DState × List String :=
         if k > 2 then (d, ["bad-op"]) else
         let d' := applyShaped d (fun t =>
           let nt := mkMap ((es.filter (fun e => e.1 == t)).map (·.2))
+          devOps (if k = 0 then .devAdd sa nt else if k = 1 then .devUpdate sa sb nt else .devDelete sa nt))
+        (d', dump d'.node ++ [flagLine d'])
+      | none => (d, ["bad-op"])
+    else if kind = "dvtx" then
+      match (do
+          let k ← pNat; let sa ← pShape; let sb ← pShape
+          let es ← pNat >>= fun n => pRep n (do let t ← pNat; let e ← pNEntry; pure (t, e))
+          pEnd
+          pure (k, sa, sb, es)).run' rest with
+      | some (k, sa, sb, es) =>
+        if k > 2 then (d, ["bad-op"]) else
+        let d' := applyShaped d (fun t =>
+          let nt := mkMap (invCur (transformInv ((es.filter (fun e => e.1 == t)).map (·.2))))
           devOps (if k = 0 then .devAdd sa nt else if k = 1 then .devUpdate sa sb nt else .devDelete sa nt))
         (d', dump d'.node ++ [flagLine d'])
       | none => (d, ["bad-op"])
